@@ -208,7 +208,7 @@ func (r *realRepo) write(s *repoState) error {
 			case "text":
 				fmt.Fprintf(&b, "text_file(name=%q, out=%q, content=%q, visibility=[\"PUBLIC\"])\n", nameOf(l), t.Out, t.Const)
 			case "opt":
-				fmt.Fprintf(&b, "genrule(name=%q, srcs=[%s], outs=[%q], optional_outs=[\"*.extra\", \"sub/*.extra\"], cmd=%q, visibility=[\"PUBLIC\"])\n",
+				fmt.Fprintf(&b, "genrule(name=%q, srcs=[%s], outs=[%q], optional_outs=[\"*.extra\"], cmd=%q, visibility=[\"PUBLIC\"])\n",
 					nameOf(l), strings.Join(srcs, ", "), t.Out, r.cmdFor(t))
 			default:
 				fmt.Fprintf(&b, "genrule(name=%q, srcs=[%s], outs=[%q], cmd=%q, visibility=[\"PUBLIC\"])\n",
@@ -482,6 +482,9 @@ func (g *gen) randomDef(label string, avail []string, out string) *target {
 		t.Kind = "catfirst"
 	default:
 		t.Kind = "cat"
+	}
+	if t.Kind == "opt" { // optional_outs=["*.extra"] is a package-level glob: keep the output of an opt target at the top level
+		t.Out = strings.TrimPrefix(t.Out, "sub/")
 	}
 	if t.Kind == "cat" || t.Kind == "catfirst" || t.Kind == "catn" || t.Kind == "opt" || t.Kind == "catx" {
 		nf := g.r.Intn(3)
